@@ -14,6 +14,8 @@ CACHE = os.path.join(BUILD, "cache")
 
 VERIF_MSG = [
     (re.compile(r"^postcondition not satisfied"), "post"),
+    (re.compile(r"^unable to prove post-condition of closure"), "post"),
+    (re.compile(r"^unable to prove pre-condition of closure|^closure precondition"), "pre"),
     (re.compile(r"^precondition not satisfied"), "pre"),
     (re.compile(r"^precondition not met"), "pre"),
     (re.compile(r"^possible arithmetic (underflow|overflow)"), "safety"),
